@@ -405,15 +405,16 @@ func builderFlow(c *Ctx, g *load.G) {
 	if fd := get("builder", "buildParser"); fd != nil {
 		b := recvName(fd)
 		gp := firstParam(fd)
-		paths := enumPaths(fd.Body)
+		paths := c.builderNorm().normPaths(fd)
 		var bad []string
 		nMain := 0
+		verdict := "res0(PrepareGrammar(" + gp + "))"
 		for _, p := range paths {
-			last := p[len(p)-1]
-			// the accepting path is the one that ends in `return b.err` (or nil); every other return rejects the grammar
-			if !(last.Kind == "return" && (last.Text == b+".err" || last.Text == "nil")) {
-				if last.Kind != "return" {
-					bad = append(bad, where(last.Node)+": the path under ["+strings.Join(p.guards(), " ")+"] does not end in a return")
+			ret := lastReturn(p)
+			// the accepting path is the one that returns b.err (or nil); every other return rejects the grammar
+			if !(ret == b+".err" || ret == "nil") {
+				if p[len(p)-1].Kind != "return" {
+					bad = append(bad, where(p[len(p)-1].Node)+": the path under ["+strings.Join(p.facts(), " ")+"] does not end in a return")
 				}
 				for _, e := range p {
 					if e.Kind == "call" && strings.HasPrefix(e.Text, b+".write") {
@@ -427,41 +428,23 @@ func builderFlow(c *Ctx, g *load.G) {
 				[2]string{"call", "PrepareGrammar(" + gp + ")"},
 				[2]string{"call", b + ".writeInit(" + gp + ".Init)"},
 				[2]string{"call", b + ".writeGrammar(" + gp + ")"},
-				[2]string{"loop", "_,rule:=range " + gp + ".Rules"},
-				[2]string{"call", b + ".writeRuleCode(rule)"},
+				[2]string{"loop", "range " + gp + ".Rules"},
+				[2]string{"call", b + ".writeRuleCode(" + gp + ".Rules[#1])"},
 				[2]string{"endloop", ""},
 				[2]string{"call", b + ".writeStaticCode()"},
 				[2]string{"return", b + ".err"},
 			)
 			if miss != "" {
-				// tolerate another loop variable name
-				miss2 := ""
-				lv := ""
-				for _, e := range p {
-					if e.Kind == "loop" && strings.HasSuffix(e.Text, ":=range "+gp+".Rules") {
-						lv = strings.TrimPrefix(strings.SplitN(e.Text, ":=", 2)[0], "_,")
-					}
-				}
-				if lv != "" {
-					miss2 = p.subsequence([2]string{"call", "PrepareGrammar(" + gp + ")"}, [2]string{"call", b + ".writeInit(" + gp + ".Init)"}, [2]string{"call", b + ".writeGrammar(" + gp + ")"},
-						[2]string{"loop", "_," + lv + ":=range " + gp + ".Rules"}, [2]string{"call", b + ".writeRuleCode(" + lv + ")"}, [2]string{"endloop", ""}, [2]string{"call", b + ".writeStaticCode()"}, [2]string{"return", b + ".err"})
-				} else {
-					miss2 = miss
-				}
-				if miss2 != "" {
-					bad = append(bad, "the accepting path lacks, in order, `"+miss2+"` (path: "+abbreviate(p.String())+"): that part of the parser is never written, the output does not compile")
-				}
+				bad = append(bad, "the accepting path lacks, in order, `"+miss+"` (path: "+abbreviate(p.String())+"): that part of the parser is never written, the output does not compile")
 			}
 			// the left-recursion verdict of PrepareGrammar reaches the builder flag before anything is written
-			iw := p.index("call", b+".writeInit("+gp+".Init)", 0)
+			iw := p.evIndex("call", 0, func(s string) bool { return strings.HasPrefix(s, b+".write") })
 			ia := -1
 			for i, e := range p {
-				if e.Kind == "assign" && strings.HasPrefix(e.Text, b+".haveLeftRecursion=") {
+				if e.Kind == "set" && strings.HasPrefix(e.Text, b+".haveLeftRecursion=") {
 					ia = i
-					if as := e.Node.(*ast.AssignStmt); len(as.Rhs) == 1 {
-						if id, ok := as.Rhs[0].(*ast.Ident); !ok || !definedFromCall(fd, id.Name, "PrepareGrammar") {
-							bad = append(bad, where(e.Node)+": b.haveLeftRecursion is assigned "+nospace(as.Rhs[0])+", not the verdict returned by PrepareGrammar")
-						}
+					if v := strings.TrimPrefix(e.Text, b+".haveLeftRecursion="); v != verdict {
+						bad = append(bad, where(e.Node)+": b.haveLeftRecursion is assigned "+v+", not the verdict returned by PrepareGrammar")
 					}
 				}
 			}
@@ -474,7 +457,7 @@ func builderFlow(c *Ctx, g *load.G) {
 		}
 		sort.Strings(bad)
 		r.Check(len(bad) == 0, "C04-g", "G.builder.buildParser:writes-every-section-in-order", "", where(fd),
-			"PrepareGrammar → haveLeftRecursion → writeInit → writeGrammar → writeRuleCode per rule → writeStaticCode → return b.err; error paths write nothing", strings.Join(bad, "; "))
+			"PrepareGrammar → haveLeftRecursion → writeInit → writeGrammar → writeRuleCode per rule → writeStaticCode → return b.err; error paths write nothing", strings.Join(uniq(bad), "; "))
 	}
 
 	// ---- C04-h: every builder field that is read has a writer that can store a non-zero value
@@ -558,17 +541,20 @@ func builderFlow(c *Ctx, g *load.G) {
 	}
 
 	// ---- C04-j: code writers
-	for _, cw := range []struct{ fn, call, fun string }{
-		{"writeActionExprCode", "callFuncTemplate", "onFuncTemplate"}, {"writeAndCodeExprCode", "callPredFuncTemplate", "onPredFuncTemplate"},
-		{"writeNotCodeExprCode", "callPredFuncTemplate", "onPredFuncTemplate"}, {"writeStateCodeExprCode", "callStateFuncTemplate", "onStateFuncTemplate"}} {
+	ro := c.writeFuncRoles()
+	for _, cw := range []struct{ fn string }{{"writeActionExprCode"}, {"writeAndCodeExprCode"}, {"writeNotCodeExprCode"}, {"writeStateCodeExprCode"}} {
 		fd := get("builder", cw.fn)
 		if fd == nil {
+			continue
+		}
+		if ro.Why != "" {
+			r.Bad("C04-j", "G.builder."+cw.fn+":defines-pending-method-once", "", where(fd), ro.Why)
 			continue
 		}
 		b, x := recvName(fd), firstParam(fd)
 		var bad []string
 		nDef := 0
-		wantCall := b + ".writeFunc(" + x + ".FuncIx," + x + ".Code," + cw.call + "," + cw.fun + ")"
+		wantCall := "writeFunc with " + ro.Names[ro.Ix] + "=" + x + ".FuncIx, " + ro.Names[ro.Code] + "=" + x + ".Code, a definition template and the call template of the same result type"
 		for _, p := range c.builderNorm().normPaths(fd) {
 			if of := p.otherFacts(x+"==nil", x+".FuncIx>0", x+".FuncIx!=0", x+"!=nil&&"+x+".FuncIx>0", x+"!=nil&&"+x+".FuncIx!=0"); len(of) > 0 {
 				bad = append(bad, "the definition depends on `"+strings.Join(of, "`, `")+"`")
@@ -578,7 +564,14 @@ func builderFlow(c *Ctx, g *load.G) {
 			present := p.holds(x + "!=nil")
 			pending := p.holds(x+".FuncIx>0") || p.holds(x+".FuncIx!=0")
 			if iw >= 0 {
-				if p[iw].Text != wantCall {
+				args := splitTop(strings.TrimSuffix(strings.TrimPrefix(p[iw].Text, b+".writeFunc("), ")"), ",")
+				okCall := len(args) == 4 && args[ro.Ix] == x+".FuncIx" && args[ro.Code] == x+".Code"
+				if okCall {
+					sd, rd := c.templateShape(args[ro.Def])
+					sc, rc := c.templateShape(args[ro.Call])
+					okCall = sd == "def" && sc == "call" && rd == rc && rd != ""
+				}
+				if !okCall {
 					bad = append(bad, where(p[iw].Node)+": writeFunc is called as "+abbreviate(p[iw].Text)+", expected "+wantCall)
 				}
 				if !present || !pending {
@@ -607,7 +600,7 @@ func builderFlow(c *Ctx, g *load.G) {
 			bad = append(bad, "no path defines the method")
 		}
 		sort.Strings(bad)
-		r.Check(len(bad) == 0, "C04-j", "G.builder."+cw.fn+":defines-pending-method-once", "", where(fd), "nil → nothing; FuncIx != 0 → writeFunc(FuncIx, Code, "+cw.call+", "+cw.fun+") then FuncIx = 0", strings.Join(uniq(bad), "; "))
+		r.Check(len(bad) == 0, "C04-j", "G.builder."+cw.fn+":defines-pending-method-once", "", where(fd), "nil → nothing; FuncIx != 0 → writeFunc(FuncIx, Code, matching templates) then FuncIx = 0", strings.Join(uniq(bad), "; "))
 	}
 	if fd := get("builder", "writeInit"); fd != nil {
 		b, x := recvName(fd), firstParam(fd)
@@ -710,7 +703,11 @@ func builderFlow(c *Ctx, g *load.G) {
 		}
 		n := 0
 		var bad []string
-		ast.Inspect(fd.Body, func(nd ast.Node) bool {
+		scope := &ast.BlockStmt{}
+		for _, h := range withHelpers(g.Pkg("builder"), fd, "writeExpr", "writeExprCode") {
+			scope.List = append(scope.List, h.Body)
+		}
+		ast.Inspect(scope, func(nd ast.Node) bool {
 			se, ok := nd.(*ast.SliceExpr)
 			if !ok || !strings.Contains(nospace(se.X), ".Val") {
 				return true
@@ -736,7 +733,6 @@ func builderFlow(c *Ctx, g *load.G) {
 	}
 	builderWriteFunc(c, g)
 	builderExprCode(c, g)
-	builderStaticTail(c, g)
 }
 
 func uniq(s []string) []string {
@@ -973,73 +969,3 @@ func builderExprCode(c *Ctx, g *load.G) {
 	r.MinRule("C04-k", 13)
 }
 
-// builderStaticTail (C04-e): after instantiating the template writeStaticCode keeps exactly the lines that are not pure
-// directive comments, writes the result, and appends the range-table helper exactly when a class needed it.
-func builderStaticTail(c *Ctx, g *load.G) {
-	r := c.R
-	bp := g.Pkg("builder")
-	fd := load.FuncDecl(bp, "builder", "writeStaticCode")
-	if fd == nil {
-		return
-	}
-	b := recvName(fd)
-	var bad []string
-	// the directive regexp variable and the loop
-	reVar := ""
-	ast.Inspect(fd.Body, func(n ast.Node) bool {
-		if as, ok := n.(*ast.AssignStmt); ok && len(as.Lhs) == 1 && len(as.Rhs) == 1 {
-			if ce, ok := as.Rhs[0].(*ast.CallExpr); ok && callName(ce) == "regexp.MustCompile" && len(ce.Args) == 1 && strings.HasPrefix(nospace(ce.Args[0]), "`^") {
-				reVar = nospace(as.Lhs[0])
-			}
-		}
-		return true
-	})
-	keptOK := false
-	ast.Inspect(fd.Body, func(n ast.Node) bool {
-		rs, ok := n.(*ast.RangeStmt)
-		if !ok || rs.Value == nil {
-			return true
-		}
-		line := nospace(rs.Value)
-		for _, ce := range callsIn(rs.Body) {
-			if callSel(ce) == "WriteString" && len(ce.Args) == 1 && strings.HasPrefix(nospace(ce.Args[0]), line) {
-				gs := factsAt(rs.Body, ce.Pos())
-				if len(gs) == 1 && gs[0] == "!"+reVar+".MatchString("+line+")" {
-					keptOK = true
-				} else {
-					bad = append(bad, g.Where(ce.Pos())+": a template line is kept under ["+strings.Join(gs, ";")+"], expected exactly `!"+reVar+".MatchString("+line+")` (drop pure directive lines, keep everything else)")
-				}
-			}
-		}
-		return true
-	})
-	if !keptOK && len(bad) == 0 {
-		bad = append(bad, "no loop that keeps the non-directive lines of the instantiated template")
-	}
-	tail, helper := false, false
-	for _, ce := range callsIn(fd.Body) {
-		if callName(ce) != b+".writeln" || len(ce.Args) != 1 {
-			continue
-		}
-		gs := guardsOf(fd.Body, ce.Pos())
-		switch a := nospace(ce.Args[0]); {
-		case a == "buffer.String()":
-			tail = len(gs) == 0
-			if !tail {
-				bad = append(bad, g.Where(ce.Pos())+": the runtime is written only under ["+strings.Join(gs, ";")+"]")
-			}
-		case a == "rangeTable0":
-			helper = len(gs) == 1 && gs[0] == b+".rangeTable"
-			if !helper {
-				bad = append(bad, g.Where(ce.Pos())+": the rangeTable helper is written under ["+strings.Join(gs, ";")+"], expected exactly "+b+".rangeTable (classes: []*unicode.RangeTable{rangeTable(..)} needs it; without classes it is dead code vet rejects)")
-			}
-		}
-	}
-	if !tail {
-		bad = append(bad, "the cleaned template text is never written: the output lacks the whole runtime")
-	}
-	if !helper {
-		bad = append(bad, "the rangeTable helper is never written under "+b+".rangeTable")
-	}
-	r.Check(len(bad) == 0, "C04-e", "G.builder.writeStaticCode:keeps-code-lines-and-writes-them", "", g.Where(fd.Pos()), "keeps non-directive lines, writes the runtime, appends rangeTable0 iff b.rangeTable", strings.Join(uniq(bad), "; "))
-}
